@@ -39,13 +39,17 @@ def degenerate_stats(B, C, D):
     return s, SP
 
 
-def sc_gmm_mstep(B, C, D, trainer, um, uv, uw, zero=None):
+def sc_gmm_mstep(B, C, D, trainer, um, uv, uw, zero=None, alpha=None):
     gmm = B.mod("gmm")
     if trainer == "ml":
         m, MP = make_gmm(B, C, D, "vector", simplex=True, update_means=um, update_variances=uv, update_weights=uw)
     else:
         ubm, MP = make_gmm(B, C, D, "vector", pre="u", simplex=True)
-        m = gmm.GMMMachine(C, trainer="map", ubm=ubm, update_means=um, update_variances=uv, update_weights=uw, map_relevance_factor=B.real("r", pos=True))
+        if alpha is None:
+            m = gmm.GMMMachine(C, trainer="map", ubm=ubm, update_means=um, update_variances=uv, update_weights=uw, map_relevance_factor=B.real("r", pos=True))
+        else:
+            av = B.arr("alpha", (C,), lo=0, hi=1) if alpha == "array" else B.real("alpha", lo=0, hi=1)
+            m = gmm.GMMMachine(C, trainer="map", ubm=ubm, update_means=um, update_variances=uv, update_weights=uw, map_relevance_factor=None, map_alpha=B.copy(av) if alpha == "array" else av)
     s, SP = degenerate_stats(B, C, D)
     if zero is not None:
         # a component that captured nothing at all
@@ -158,6 +162,9 @@ def job_gmm(P, C, D, trainer):
     for um, uv, uw in itertools.product((False, True), repeat=3):
         P.run("%s-m%dv%dw%d" % (trainer, um, uv, uw), sc_gmm_mstep, dict(C=C, D=D, trainer=trainer, um=um, uv=uv, uw=uw), validate=1)
     P.run("%s-zero-component" % trainer, sc_gmm_mstep, dict(C=C, D=D, trainer=trainer, um=True, uv=True, uw=True, zero=C - 1), validate=0)
+    if trainer == "map":
+        for al in ("scalar", "array"):
+            P.run("map-alpha-%s" % al, sc_gmm_mstep, dict(C=C, D=D, trainer="map", um=True, uv=False, uw=True, alpha=al), validate=1)
 
 
 def job_estep(P, C, D, N):
